@@ -430,21 +430,44 @@ func ruleCallbackNotRun(c *Ctx, rule string) {
 			if _, isFunc := prm.Type().Underlying().(*types.Signature); !isFunc {
 				continue
 			}
-			// queued: flows (through an append) into a store to a field of the receiver
+			// queued: appended to a list kept in a field of the receiver
 			queued := false
 			ran := ""
+			recv := ssa.Value(fn.Params[0])
 			if refs := prm.Referrers(); refs != nil {
 				for _, r := range *refs {
 					switch u := r.(type) {
 					case *ssa.Store:
-						// packed for an append
-						if ia, ok := u.Addr.(*ssa.IndexAddr); ok {
-							if _, isAl := ia.X.(*ssa.Alloc); isAl {
-								queued = true
-							}
+						// packed for an append whose result goes into a field of the receiver
+						ia, ok := u.Addr.(*ssa.IndexAddr)
+						if !ok {
+							continue
 						}
-						if f, _ := fieldOfAddr(u.Addr); f != nil {
-							queued = true
+						al, isAl := ia.X.(*ssa.Alloc)
+						if !isAl || al.Referrers() == nil {
+							continue
+						}
+						for _, ar := range *al.Referrers() {
+							sl, isSl := ar.(*ssa.Slice)
+							if !isSl || sl.Referrers() == nil {
+								continue
+							}
+							for _, sr := range *sl.Referrers() {
+								app, isCall := sr.(*ssa.Call)
+								if !isCall || app.Referrers() == nil {
+									continue
+								}
+								if bi, isB := app.Call.Value.(*ssa.Builtin); !isB || bi.Name() != "append" {
+									continue
+								}
+								for _, wr := range *app.Referrers() {
+									if st, isSt := wr.(*ssa.Store); isSt {
+										if f, base := fieldOfAddr(st.Addr); f != nil && base == recv {
+											queued = true
+										}
+									}
+								}
+							}
 						}
 					case ssa.CallInstruction:
 						if u.Common().Value == ssa.Value(prm) {
@@ -462,7 +485,7 @@ func ruleCallbackNotRun(c *Ctx, rule string) {
 		}
 	}
 	c.CallSites(n)
-	c.Floor(rule, 2)
+	c.Floor(rule, 1)
 }
 
 // ruleImplState: the states handed to listeners are loaded through the store's outermost implementation
@@ -676,13 +699,42 @@ func ruleTypedNil(c *Ctx, rule string, pkgs ...string) {
 							return true
 						}
 					case *ssa.Phi:
-						for _, e := range x.Edges {
-							if mayBeNil(e, d+1) {
-								if what == "" {
-									what = "a value that is nil on one of the paths joining here"
-								}
-								return true
+						for i, e := range x.Edges {
+							if !mayBeNil(e, d+1) {
+								continue
 							}
+							// ... and the place is reachable from that edge (a nil that comes with an error which is
+							// returned first never gets here)
+							if _, direct := e.(*ssa.Const); direct {
+								// the (value, error) idiom: on this edge an error comes with the nil
+								withErr := false
+								for _, sib := range x.Block().Instrs {
+									sp, isPhi := sib.(*ssa.Phi)
+									if !isPhi {
+										break
+									}
+									if sp != x && isErrorType(sp.Type()) && i < len(sp.Edges) && !isNilConst(sp.Edges[i]) {
+										withErr = true
+									}
+								}
+								if withErr {
+									continue
+								}
+								if fi == nil {
+									fi = factsOf(fn)
+								}
+								pred := x.Block().Preds[i]
+								ps := &pathSearch{fn: fn, fi: fi, start: x.Block(), startKnow: stepKnow(fi, pred, x.Block(), knowMap{}),
+									target: func(in2 ssa.Instruction) bool { return in2 == ssa.Instruction(mi) }}
+								ps.atReturn = func(*ssa.Return, knowMap) bool { return false }
+								if !ps.run() {
+									continue
+								}
+							}
+							if what == "" {
+								what = "a value that is nil on one of the paths joining here"
+							}
+							return true
 						}
 					}
 					return false
@@ -809,17 +861,26 @@ func ruleSameBucket(c *Ctx, rule string) {
 		if fn.Parent() != nil {
 			continue
 		}
+		// the holder handed to the indexing context: the bucket object this function turns into an ErrorHolder
+		// (as an argument of the constructor, a field of its parameter object, or the context's own field once the
+		// constructor is expanded here)
 		var holder ssa.Value
-		for _, call := range callsIn(fn) {
-			if invokeNamed(call, "newIndexingContext") && len(call.Common().Args) >= 4 {
-				holder = call.Common().Args[len(call.Common().Args)-1]
+		for _, b := range fn.Blocks {
+			for _, in := range b.Instrs {
+				mi, ok := in.(*ssa.MakeInterface)
+				if !ok {
+					continue
+				}
+				if an, isNamed := types.Unalias(mi.Type()).(*types.Named); !isNamed || an.Obj().Name() != "ErrorHolder" {
+					continue
+				}
+				if xn := namedOf(mi.X.Type()); xn != nil && xn.Obj().Name() == "TypedBucket" {
+					holder = mi.X
+				}
 			}
 		}
 		if holder == nil {
 			continue
-		}
-		if mi, ok := holder.(*ssa.MakeInterface); ok {
-			holder = mi.X
 		}
 		for _, b := range fn.Blocks {
 			for _, in := range b.Instrs {
@@ -832,7 +893,16 @@ func ruleSameBucket(c *Ctx, rule string) {
 				}
 				n++
 				c.Analysed(FnName(fn))
-				c.Check(st.Val == holder, rule, FnName(fn)+": persist bucket", p.Pos(st.Pos()), "the persist context writes through the bucket object the indexing context records into", "the persist context is given "+describeValue(st.Val)+", not the bucket object that was handed to the indexing context as its error holder ("+describeValue(holder)+"): a second wrapper of the same bolt bucket has its own error cell, so a refusal a constraint records before the persist (the system-entity check) does not stop the field writes")
+				same := st.Val == holder
+				if !same {
+					// the holder read back from the persist context it was just put into
+					if hf, hbase := loadedField(holder); sameVar(hf, bucketFld) {
+						if _, sbase := fieldOfAddr(st.Addr); sbase == hbase {
+							same = true
+						}
+					}
+				}
+				c.Check(same, rule, FnName(fn)+": persist bucket", p.Pos(st.Pos()), "the persist context writes through the bucket object the indexing context records into", "the persist context is given "+describeValue(st.Val)+", not the bucket object that was handed to the indexing context as its error holder ("+describeValue(holder)+"): a second wrapper of the same bolt bucket has its own error cell, so a refusal a constraint records before the persist (the system-entity check) does not stop the field writes")
 			}
 		}
 	}
